@@ -9,6 +9,7 @@
  *  VP_STATFS=1          constant statfs block counts;  VP_FSTYPE=<hex> overrides f_type
  *  VP_TRACE=<file>      append one line per traced call; VP_TRACE_READS=1 adds open/read/pread
  *  VP_FAIL=<glob>:<call>:<n>[+]:<errno>[;...]   fail the n-th (0-based) matching call (n+ : from n on)
+ *                                               errno -1 on a pread: not a failure but a SHORT transfer (half of the bytes asked for)
  *  VP_KILL=<k>:<before|after|torn>              SIGKILL self around the k-th state-changing call
  *  VP_SIGINT=<glob>:<call>:<n>                  raise SIGINT before the n-th matching call
  *  VP_PAUSE=<k>:<fifo>                          block before state-changing call k until fifo is written
@@ -204,14 +205,16 @@ static void trace(const char* call, const char* path, const char* path2, long lo
 /* returns errno to inject (>0) or 0 */
 static int check_fail(const char* call, const char* path)
 {
+	int res = 0;
 	for (int i = 0; i < fail_n; ++i) {
 		struct rule* r = &fail_rule[i];
 		if (strcmp(r->call, call) != 0) continue;
 		if (fnmatch(r->glob, path, 0) != 0) continue;
 		long c = __atomic_fetch_add(&r->count, 1, __ATOMIC_SEQ_CST);
-		if (c == r->n || (r->from && c > r->n)) return r->err;
+		/* every rule counts every matching call, also when an earlier rule decides this one */
+		if (!res && (c == r->n || (r->from && c > r->n))) res = r->err;
 	}
-	return 0;
+	return res;
 }
 
 static void check_sigint(const char* call, const char* path)
@@ -401,6 +404,15 @@ static ssize_t do_pread(int fd, void* buf, size_t size, off_t off)
 	if (!under_root(p)) return REAL(pread)(fd, buf, size, off);
 	check_sigint("pread", p);
 	int e = check_fail("pread", p);
+	if (e == -1) {
+		/* a short read: a legitimate answer of the OS, the caller has to go on from where it stopped */
+		size_t part = size >= 2 ? size / 2 : size;
+		ssize_t r = REAL(pread)(fd, buf, part, off);
+		int se = errno;
+		trace("pread", p, "short", off, part, r, -1, -1);
+		errno = se;
+		return r;
+	}
 	if (e) {
 		trace("pread", p, 0, off, size, -1, e, -1);
 		errno = e;
